@@ -80,7 +80,11 @@ struct AllocGuard
   volatile bool active = false;
   size_t max_req = 0;
   size_t refused_max = 0;
-  size_t cap_fail = 256ull << 20; // requests above this fail with bad_alloc (keeps the machine alive); > 1 GiB is a violation
+  size_t last_big = 0; // growth pattern of the requests >= 1 MiB: a buffer that keeps doubling is a runaway loop,
+  int streak = 0;      // not an allocation sized by a number in the input
+  bool runaway = false;
+  size_t cap_fail = 1ull << 30; // requests above 1 GiB fail with bad_alloc and are the violation the statement names; everything
+                                // up to that is served, so that runaway growth (e.g. a line buffer doubling for ever) reaches it
   int notify_fd = -1;
 } g_alloc;
 
@@ -106,9 +110,11 @@ alloc_notify(size_t n)
   p += 4;
   for (int i = nd - 1; i >= 0; --i)
     rec[p++] = digits[i];
-  l = 0;
+  l = g_alloc.runaway ? 1 : 0; // second field: "g" when the request is the end of a run of >= 8 growing requests
   std::memcpy(rec + p, &l, 4);
   p += 4;
+  if (g_alloc.runaway)
+    rec[p++] = 'g';
   ssize_t w = ::write(g_alloc.notify_fd, rec, static_cast<size_t>(p));
   (void)w;
 }
@@ -120,6 +126,13 @@ guarded_alloc(size_t n, size_t align, bool nothrow)
     {
       if (n > g_alloc.max_req)
         g_alloc.max_req = n;
+      if (n >= (1u << 20) && n > g_alloc.last_big)
+        {
+          g_alloc.streak = (g_alloc.last_big && n <= 3 * g_alloc.last_big) ? g_alloc.streak + 1 : 1;
+          g_alloc.last_big = n;
+          if (g_alloc.streak >= 8)
+            g_alloc.runaway = true;
+        }
       if (n > g_alloc.cap_fail)
         {
           if (n > g_alloc.refused_max)
@@ -232,6 +245,9 @@ struct AllocScope
   {
     g_alloc.max_req = 0;
     g_alloc.refused_max = 0;
+    g_alloc.last_big = 0;
+    g_alloc.streak = 0;
+    g_alloc.runaway = false;
     g_alloc.active = true;
   }
   ~AllocScope() { g_alloc.active = false; }
@@ -443,6 +459,7 @@ struct Result
   std::map<std::string, long> counts;
   size_t max_alloc = 0;
   size_t refused_max = 0;
+  bool runaway = false; // the refused request ended a run of >= 8 growing requests (1 MiB -> > 1 GiB)
   std::string text; // payload returned to the parent
   bool complete = false;
   void viol(const std::string& k, const std::string& w)
@@ -474,6 +491,7 @@ encode(const Result& r)
   for (auto& c : r.counts)
     put_rec(buf, 'C', c.first, std::to_string(c.second));
   put_rec(buf, 'A', std::to_string(r.max_alloc), std::to_string(r.refused_max));
+  put_rec(buf, 'G', r.runaway ? "1" : "0", "");
   put_rec(buf, 'T', r.text);
   put_rec(buf, 'E', "");
   return buf;
@@ -514,7 +532,11 @@ decode(const std::string& buf, Result& r)
           r.max_alloc = std::max(r.max_alloc, static_cast<size_t>(std::strtoull(a.c_str(), nullptr, 10)));
           r.refused_max = std::max(r.refused_max, static_cast<size_t>(std::strtoull(b.c_str(), nullptr, 10)));
           break;
+        case 'G':
+          r.runaway = r.runaway || a == "1";
+          break;
         case 'R':
+          r.runaway = r.runaway || b == "g";
           r.refused_max = std::max(r.refused_max, static_cast<size_t>(std::strtoull(a.c_str(), nullptr, 10)));
           r.max_alloc = std::max(r.max_alloc, r.refused_max);
           break;
@@ -1722,6 +1744,7 @@ finish_alloc(Result& r, const std::string& entry, const Input& in)
 {
   r.max_alloc = std::max(r.max_alloc, g_alloc.max_req);
   r.refused_max = std::max(r.refused_max, g_alloc.refused_max);
+  r.runaway = r.runaway || g_alloc.runaway;
 }
 
 // the class whose keyword table parses this family of inputs (names the site of allocation findings)
@@ -1750,7 +1773,11 @@ report_alloc(Result& r, const std::string& entry, const Input& in)
   if (r.refused_max > GiB)
     {
       r.viols.clear();
-      r.viol("unbounded-allocation:" + parser_class(*in.seed),
+      // two classes: a single request sized by a count in the input (keyed by the parser class), and a buffer that kept growing
+      // (>= 8 successive growing requests from 1 MiB to beyond 1 GiB: a loop that does not terminate), keyed apart so that the
+      // listed count-keyword findings cannot hide it
+      r.viol((r.runaway ? "runaway-allocation-growth:" + parser_class(*in.seed) + ":" + (in.culprit.empty() ? std::string("no-single-key") : keyify(in.culprit))
+                        : "unbounded-allocation:" + parser_class(*in.seed)),
              "keyword changed: '" + (in.culprit.empty() ? std::string("(no single keyword)") : in.culprit) + "'; a single allocation of " + std::to_string(r.refused_max) + " bytes was requested while parsing an input of "
                  + std::to_string(in.text.size()) + " bytes through " + entry + " (mutation " + in.kinds + ")\n--- input:\n" + clip(in.text, 3000));
     }
@@ -2567,6 +2594,16 @@ mutate(const Seed& seed, vf::Rng& rng)
   m.text = join_lines(lines);
   if (m.text.size() > 60000)
     m.text.resize(60000);
+  if (rng.coin(0.04))
+    {
+      // the text ends with the continuation character and NO end-of-line after it (a text editor that does not
+      // terminate the last line): the parser has to stop at the end of the input
+      while (!m.text.empty() && (m.text.back() == '\n' || m.text.back() == '\r'))
+        m.text.pop_back();
+      m.text += "\\";
+      m.kinds += (m.kinds.empty() ? "" : "+") + std::string("continuation-at-eof");
+      m.steps.push_back({ m.text, m.kinds, "(last line)" });
+    }
   return m;
 }
 } // namespace
@@ -2743,6 +2780,8 @@ run_mutate_case(Ctx& ctx)
       = { { "image", 20 }, { "dynimage", 8 }, { "pdfs", 26 }, { "spect", 8 }, { "siemens", 8 }, { "multi", 5 }, { "kp", 12 }, { "par", 13 } };
   const Seed& seed = *pick_seed(ctx, weights);
   const Mutated m = mutate(seed, ctx.rng);
+  if (m.kinds.find("continuation-at-eof") != std::string::npos)
+    ctx.count("mutations_continuation_at_eof");
   Input in;
   in.seed = &seed;
   in.text = m.text;
